@@ -67,6 +67,16 @@ def parse_complex(text):
 SIMPLE = re.compile(r"(\*|[a-zA-Z][-\w]*)|\.([-\w]+)|:(not|is|where|matches)\(|(::?[-\w]+)|(#[-\w]+)|(\[[^\]]*\])|(%[-\w]+)")
 
 
+# The feature the model calls class 'y' can be spelled as an id, an attribute or a pseudo-class: element matching treats all
+# four as one opaque boolean feature of an element, so the same generated case exercises grass' id/attribute/pseudo paths.
+SPELLINGS = {"id": "#y", "attr": "[y]", "pseudo": ":hover"}
+
+
+def respell(text, mode):
+    """the selector text with every '.y' written in another spelling"""
+    return re.sub(r"\.y(?![-\w])", SPELLINGS[mode], text)
+
+
 def parse_compound(text):
     c = {"type": "", "cls": [], "nots": [], "iss": []}
     i = 0
@@ -96,6 +106,9 @@ def parse_compound(text):
             i = j
         elif m.group(7) is not None:
             c["cls"].append(m.group(7))          # a placeholder: a class no element ever has natively
+            i = m.end()
+        elif m.group(0) in SPELLINGS.values():
+            c["cls"].append("y")                 # another spelling of the feature 'y' (see respell)
             i = m.end()
         else:
             raise Unsupported("selector outside the modelled alphabet: %r" % m.group(0))
